@@ -1396,7 +1396,7 @@ def _shrink_candidates(case):
 
 
 MANIFEST = {
-    'level_text': 'Proof of partial correctness (plus the VM half of totality) + exact correspondence. Proved in Coq (unbounded, closed under the global context): '
+    'level_text': 'Proof of total correctness of the modelled pipeline (round 6: the translator half of totality) + exact correspondence. Proved in Coq (unbounded, closed under the global context): '
                   '(1) C17_staircase: for every source built from constant holds (plain / int / affine voltages, any number of '
                   'channels), sequences, iterations with any start/stop/step and repetitions of any count, nested to any depth: '
                   'whenever the modelled pipeline LinSpaceBuilder -> to_increment_commands -> LinSpaceVM returns a history it is '
@@ -1421,8 +1421,14 @@ MANIFEST = {
                   'round-1 statement is false without the key-collision guard.  Round 5 (audit): (6) C17_staircase_total_if_translated: if the '
                   'translator returns a command list, the VM runs it to the end (no KeyError / IndexError), returns the same history for every '
                   'fuel above a bound, and that history is the staircase; the builder never fails.  (7) index rebinding mappings: the substitution '
-                  'used in (2) computes an independent denotation over rational index environments (C17_scope_flatten_is_denotation).  NOT proved: '
-                  'that the translator itself returns (no AssertionError) -- tested on every case; that the default Loop program plays the '
+                  'used in (2) computes an independent denotation over rational index environments (C17_scope_flatten_is_denotation).  Round 6: (8) '
+                  'C17_translator_returns(_program): to_increment_commands returns a command list for every program with the structure of a builder '
+                  'output (no assertion of required_increment_from / _set_indexed_voltage fires; no key-collision hypothesis), also stated for the '
+                  'function translated from the current source (C17_source_translator_returns); C17_staircase_total: for every well-formed source '
+                  'without a key collision the modelled pipeline returns, for every fuel above a bound, one history, and it is the staircase; (9) the labels of a '
+                  'translated program are pairwise different, so the label assertion of the translated LinSpaceVM.set_commands does not fire, and '
+                  'C17_staircase_source_all_total: the total statement on code translated from the source only (builder, translator, VM; the driver and the '
+                  'positional reading of names stay hand-written).  NOT proved: that the default Loop program plays the '
                   'staircase of the source term -- compared on every case; the tolerance clause for slopes within 1e-9 and float rounding -- '
                   'tested on a decimal stream; templates played through a Transformation and parameter / channel mappings -- tested only '
                   '(family trafo, new in round 5; never generated before).  The model is tied to /repo on every run by the exact '
